@@ -292,8 +292,25 @@ fn res_rawat(rest: &str) -> String {
 	run(&g, r, &a[3..])
 }
 
+/// nameeq <a> <b>: the public comparisons of `resources::Name` (`PartialEq`, `PartialEq<str>`, `PartialEq<u32>`,
+/// the `From` conversions), no image involved
+fn nameeq(rest: &str) -> String {
+	let a: Vec<&str> = rest.split(' ').collect();
+	if a.len() != 2 { return "bad-op".to_string(); }
+	let (x, y) = match (OwnedName::parse(a[0]), OwnedName::parse(a[1])) { (Some(x), Some(y)) => (x, y), _ => return "bad-op".to_string() };
+	// through the `From` impls where they exist (u16 ids, wide strings, Rust strings)
+	fn via_from<'a>(o: &'a OwnedName) -> Name<'a> {
+		match o { OwnedName::Id(n) if *n <= 0xFFFF => Name::from(*n as u16), OwnedName::Id(n) => Name::Id(*n), OwnedName::Wide(w) => Name::from(&w[..]), OwnedName::Str(s) => Name::from(&s[..]) }
+	}
+	let (nx, ny) = (via_from(&x), via_from(&y));
+	let s = match &y { OwnedName::Str(t) => ((nx == *t.as_str()) as u8).to_string(), _ => "-".to_string() };
+	let u = match &y { OwnedName::Id(m) => ((nx == *m) as u8).to_string(), _ => "-".to_string() };
+	format!("ok eq={} rev={} str={} u32={}", (nx == ny) as u8, (ny == nx) as u8, s, u)
+}
+
 pub fn dispatch(st: &mut State, fam: &str, rest: &str) -> Option<String> {
 	Some(match fam {
+		"nameeq" => nameeq(rest),
 		"res" => res(st, rest),
 		"grp_write" => grp_write(st, rest),
 		"grp_write_chunk" => grp_write_chunk(st, rest),
